@@ -937,6 +937,7 @@ func (e *Engine) specSort(env *Env, kw string) (string, types.Type) {
 		return "(Array Int String)", types.NewArray(tString, 0)
 	case "bytesarr":
 		// the element array of a [][]byte
+		e.declSlice()
 		return "(Array Int Slice)", types.NewArray(types.NewSlice(types.Typ[types.Uint8]), 0)
 	case "intset":
 		return "(Array Int Bool)", types.NewArray(tBool, 0)
